@@ -330,6 +330,59 @@ def _d10_pages(run: Run) -> None:
             break
 
 
+def _d11_directives(run: Run) -> None:
+    """D11: docs.parse._find_law_directives EVALUATED on member docstrings with both placeholders (in either order), one of them, none: every placeholder that is present
+    is found, at its position, with its type - the page composer replaces exactly what is found, so a missed placeholder stays on the page as literal text"""
+    run.rule("D11", "_find_law_directives finds every `:laws:symbol::` / `:laws:latex::` placeholder of a docstring at its position, whichever of the two are present and in whatever order")
+    pm = run.src.need(DOCS + "parse")
+    run.require(any(isinstance(f_, ast.FunctionDef) and f_.name == "_find_law_directives" for f_ in pm.tree.body), "docs.parse._find_law_directives not found")
+    SYM, LAT = ":laws:symbol::", ":laws:latex::"
+
+    class R(PyReader):
+
+        def hook_call(self, n, env, fns):
+            name = (dotted(n.func) or "").split(".")[-1]
+            if name == "LawDirective" and name not in self.functions:
+                args = [self.ev(a, env, fns) for a in n.args]
+                kw_ = {k.arg: self.ev(k.value, env, fns) for k in n.keywords if k.arg}
+                vals = args + [kw_[k] for k in ("start", "end", "directive_type") if k in kw_]
+                return ("directive", ) + tuple(vals)
+            return NotImplemented
+
+        def global_value(self, n):
+            d = dotted(n)
+            if d in ("LawDirectiveType.SYMBOL", "LawDirectiveType.LATEX"):
+                return d.split(".")[-1]
+            return super().global_value(n)
+
+    docs = {
+        "both, symbol first": f"Text.\n\n{SYM}\n\n{LAT}\n",
+        "both, latex first": f"Text.\n\n{LAT}\n\n{SYM}\n",
+        "symbol only": f"Text.\n\n{SYM}\n",
+        "latex only": f"Text about the law.\n\n{LAT}\n",
+        "latex only, at the very end": f"Text.\n\n{LAT}",
+        "neither": "Text.\n",
+    }
+    for label, doc in docs.items():
+        run.ob("D11", label)
+        rd = R(pm.tree, "docs/parse.py", depth_limit=6)
+        try:
+            got = rd.call("_find_law_directives", [doc])
+        except Raised as r_:
+            run.violate("D11", f"{DOCS}parse:_find_law_directives:{label}", pm, pm.tree, f"_find_law_directives raises {r_.exc} for a docstring with {label}")
+            continue
+        want = set()
+        for marker, typ in ((SYM, "SYMBOL"), (LAT, "LATEX")):
+            pos = doc.find(marker)
+            if pos >= 0:
+                want.add((pos, pos + len(marker), typ))
+        have = {tuple(x[1:4]) for x in got if isinstance(x, tuple) and x and x[0] == "directive"} if isinstance(got, list) else None
+        if have != want:
+            run.violate("D11", f"{DOCS}parse:_find_law_directives:{label}", pm, pm.tree,
+                        f"_find_law_directives on a docstring with {label} finds {sorted(have) if have is not None else got!r}, the placeholders present are {sorted(want)}: "
+                        f"a placeholder that is not found stays on the generated page as literal text and the member loses its formula")
+
+
 def _patcher_anchors(run: Run) -> None:
     # the replica in this checker (kept_prefix, member/docstring association) mirrors two functions of the generator; any change of
     # their code (not of comments/formatting) means the replica must be re-derived: the analysis refuses instead of guessing
@@ -486,6 +539,7 @@ def check(run: Run) -> None:
         _d7(run, w)
         _d8(run, w)
         _d10_pages(run)
+        _d11_directives(run)
         if not run.findings:
             raise AnalysisError(stale)
         return
@@ -656,6 +710,7 @@ def check(run: Run) -> None:
     _d7(run, w)
     _d8(run, w)
     _d10_pages(run)
+    _d11_directives(run)
 
 
 _D1_FIXTURE = '''"""
